@@ -175,7 +175,7 @@ func runRefresh(run *vh.Run, o *vh.Opts, cases []Case) {
 				run.Hist("refresh:executors-map-race-abort(not claimed)")
 				continue
 			}
-			run.Fail(idx, "refresh-run-crashed", short(text, 1500), c)
+			failCapped(run, idx, "refresh-run-crashed", short(text, 1500), c)
 			continue
 		}
 		var ro refreshOut
@@ -184,18 +184,18 @@ func runRefresh(run *vh.Run, o *vh.Opts, cases []Case) {
 			line = strings.TrimSpace(text)[i+1:]
 		}
 		if json.Unmarshal([]byte(line), &ro) != nil {
-			run.Fail(idx, "refresh-run-crashed", "unparsable child output: "+short(text, 800), c)
+			failCapped(run, idx, "refresh-run-crashed", "unparsable child output: "+short(text, 800), c)
 			continue
 		}
 		run.Hist("refresh:cases")
 		run.Histogram["refresh:requests"] += ro.Requests
 		run.Histogram["refresh:planner-swaps"] += int(ro.Swaps)
 		if len(ro.Mismatches) > 0 {
-			run.Fail(idx, "gateway-answer-changes-during-schema-refresh", ro.Mismatches[0], c)
+			failCapped(run, idx, "gateway-answer-changes-during-schema-refresh", ro.Mismatches[0], c)
 		} else if len(ro.Errors) > 0 {
-			run.Fail(idx, "gateway-error-during-schema-refresh", ro.Errors[0], c)
+			failCapped(run, idx, "gateway-error-during-schema-refresh", ro.Errors[0], c)
 		} else if len(ro.SubProblem) > 0 {
-			run.Fail(idx, "subquery-problem-during-schema-refresh", ro.SubProblem[0], c)
+			failCapped(run, idx, "subquery-problem-during-schema-refresh", ro.SubProblem[0], c)
 		}
 	}
 }
